@@ -31,10 +31,63 @@ func factsAt(b *ssa.BasicBlock) []Fact {
 		if len(cur.Preds) == 1 {
 			p := cur.Preds[0]
 			if iff, ok := p.Instrs[len(p.Instrs)-1].(*ssa.If); ok && len(p.Succs) == 2 && p.Succs[0] != p.Succs[1] {
-				fs = append(fs, Fact{iff.Cond, p.Succs[0] == cur})
+				fs = appendFact(fs, Fact{iff.Cond, p.Succs[0] == cur}, 0)
 			}
 		}
 		cur = cur.Idom()
+	}
+	return fs
+}
+
+// appendFact adds f and what it implies when its condition is a materialised
+// short-circuit expression or a negation: a false `a || b` makes both false, a
+// true `a && b` makes both true, `!a` is a with the opposite truth. go/ssa
+// builds such a value (a phi over the constant and the right operand) when the
+// expression is not itself the condition of an if statement, e.g. in a case
+// clause or when assigned to a variable.
+func appendFact(fs []Fact, f Fact, depth int) []Fact {
+	fs = append(fs, f)
+	if depth > 4 {
+		return fs
+	}
+	switch x := f.Cond.(type) {
+	case *ssa.UnOp:
+		if x.Op == token.NOT {
+			return appendFact(fs, Fact{x.X, !f.Truth}, depth+1)
+		}
+	case *ssa.Phi:
+		if len(x.Edges) != 2 || len(x.Block().Preds) != 2 {
+			return fs
+		}
+		for i := 0; i < 2; i++ {
+			c, ok := x.Edges[i].(*ssa.Const)
+			if !ok || c.Value == nil || c.Value.Kind() != constant.Bool {
+				continue
+			}
+			k := constant.BoolVal(c.Value)
+			pr := x.Block().Preds[i]
+			iff, ok := pr.Instrs[len(pr.Instrs)-1].(*ssa.If)
+			if !ok || len(pr.Succs) != 2 {
+				continue
+			}
+			// the short-circuit edge: from the block that tests the left
+			// operand straight to the join, carrying the constant
+			onTrue := pr.Succs[0] == x.Block()
+			if k != onTrue {
+				continue // not the `a true ⇒ true` / `a false ⇒ false` shape
+			}
+			other := x.Edges[1-i]
+			if k && !f.Truth {
+				// a || b is false
+				fs = appendFact(fs, Fact{iff.Cond, false}, depth+1)
+				fs = appendFact(fs, Fact{other, false}, depth+1)
+			}
+			if !k && f.Truth {
+				// a && b is true
+				fs = appendFact(fs, Fact{iff.Cond, true}, depth+1)
+				fs = appendFact(fs, Fact{other, true}, depth+1)
+			}
+		}
 	}
 	return fs
 }
@@ -44,7 +97,7 @@ func factsAt(b *ssa.BasicBlock) []Fact {
 func edgeFacts(p *ssa.BasicBlock, idx int) []Fact {
 	fs := factsAt(p)
 	if iff, ok := p.Instrs[len(p.Instrs)-1].(*ssa.If); ok && len(p.Succs) == 2 && p.Succs[0] != p.Succs[1] {
-		fs = append([]Fact{{iff.Cond, idx == 0}}, fs...)
+		fs = append(appendFact(nil, Fact{iff.Cond, idx == 0}, 0), fs...)
 	}
 	return fs
 }
@@ -527,4 +580,72 @@ func (p *Prog) enumOf(t types.Type) *EnumInfo {
 		}
 	}
 	return nil
+}
+
+// ExpRet is one way of leaving a function: a return instruction together with
+// the incoming edge that selects the values of the phis it returns (single-exit
+// style `res = …; return res` is expanded into one ExpRet per assignment).
+type ExpRet struct {
+	Instr   *ssa.Return
+	Block   *ssa.BasicBlock // block whose facts apply (the predecessor for expanded phis)
+	Results []ssa.Value
+	Facts   []Fact
+}
+
+// expandedReturns lists the returns of fn, expanding result phis that sit in
+// the return block (or in jump-only blocks leading to it) edge by edge.
+func expandedReturns(fn *ssa.Function) []ExpRet {
+	var out []ExpRet
+	for _, b := range fn.Blocks {
+		if b == fn.Recover {
+			continue
+		}
+		r, ok := b.Instrs[len(b.Instrs)-1].(*ssa.Return)
+		if !ok {
+			continue
+		}
+		res := make([]ssa.Value, len(r.Results))
+		for i, v := range r.Results {
+			res[i] = unspill(b, r, v)
+		}
+		expandRet(r, b, res, factsAt(b), 0, &out)
+	}
+	return out
+}
+
+func expandRet(r *ssa.Return, b *ssa.BasicBlock, res []ssa.Value, fs []Fact, depth int, out *[]ExpRet) {
+	hasPhi := false
+	for _, v := range res {
+		if ph, ok := stripConv(v).(*ssa.Phi); ok && ph.Block() == b {
+			hasPhi = true
+		}
+	}
+	if !hasPhi || depth > 3 || len(b.Preds) == 0 {
+		*out = append(*out, ExpRet{r, b, res, fs})
+		return
+	}
+	for i, pr := range b.Preds {
+		nres := make([]ssa.Value, len(res))
+		for k, v := range res {
+			nres[k] = v
+			if ph, ok := stripConv(v).(*ssa.Phi); ok && ph.Block() == b {
+				nres[k] = ph.Edges[i]
+			}
+		}
+		efs := edgeFacts(pr, succIndex(pr, b))
+		// a jump-only predecessor holding further phis: keep expanding
+		jumpOnly := true
+		for _, ins := range pr.Instrs {
+			switch ins.(type) {
+			case *ssa.Phi, *ssa.Jump, *ssa.DebugRef:
+			default:
+				jumpOnly = false
+			}
+		}
+		if jumpOnly {
+			expandRet(r, pr, nres, efs, depth+1, out)
+		} else {
+			*out = append(*out, ExpRet{r, pr, nres, efs})
+		}
+	}
 }
